@@ -24,9 +24,10 @@ import (
 )
 
 type ksCase struct {
-	Content *Content  `json:"content"`
-	Strict  bool      `json:"strict,omitempty"`
-	Oracle  *Analysis `json:"oracle"`
+	Password string    `json:"password,omitempty"`
+	Content  *Content  `json:"content"`
+	Strict   bool      `json:"strict,omitempty"`
+	Oracle   *Analysis `json:"oracle"`
 }
 
 type ksEntryObs struct {
@@ -63,6 +64,11 @@ func ksContents(sweepAll bool) []*Content {
 		{Parts: []Part{{Fix: "ec256", Kid: "a"}, {Fix: "ec384", Kid: "a"}}, Mut: "none"},
 		{Parts: []Part{{Fix: "ec256"}, {Fix: "ec256"}}, Mut: "none"},
 		{Parts: []Part{{Fix: "ec256enc"}, {Fix: "cert_ec256"}, {Fix: "cert_root"}, {Fix: "cert_inter"}, {Fix: "cert_root"}}, Mut: "none"},
+	}
+
+	for _, k := range AllKeys() { // every key size alone and behind a supported key
+		cs = append(cs, &Content{Parts: []Part{{Fix: k}}, Mut: "none"},
+			&Content{Parts: []Part{{Fix: "ec384"}, {Fix: k, Kid: "second"}}, Mut: "none"})
 	}
 
 	bases := SweepBases[:2]
@@ -120,7 +126,7 @@ func runChild(c *Content) (string, string) {
 }
 
 // TestVerifC19Misc runs the three streams that need no in-package access in one binary
-// (case indices: key store 0.., trust store 100000.., request 200000.., remote 300000..).
+// (case indices: key store 0.., trust store 100000.., request 200000.., remote 300000.., watch 400000..).
 func TestVerifC19Misc(t *testing.T) {
 	w := vf.NewWriter()
 	defer w.Close()
@@ -130,6 +136,7 @@ func TestVerifC19Misc(t *testing.T) {
 	runTS(w, n*3/9)
 	runReq(w, n/18)
 	runRemote(w, n/18)
+	runWatch(w)
 }
 
 func runKS(w *vf.Writer, nrand int) {
@@ -151,8 +158,13 @@ func runKS(w *vf.Writer, nrand int) {
 			continue
 		}
 
+		pw := Password
+		if i%13 == 5 {
+			pw = "wrong"
+		}
+
 		in := NewInterner()
-		a := Analyse(in, c.Bytes(), Password)
+		a := Analyse(in, c.Bytes(), pw)
 		o := ksObs{}
 
 		var (
@@ -165,10 +177,10 @@ func runKS(w *vf.Writer, nrand int) {
 			// a tree without the repair of C19-F6 dies of a stack overflow here: the child process goes first
 			site, o.Msg = runChild(c)
 			if site == "" {
-				site, o.Msg = Catch(func() { ks, err = keystore.NewKeyStoreFromPEMBytes(c.Bytes(), Password) })
+				site, o.Msg = Catch(func() { ks, err = keystore.NewKeyStoreFromPEMBytes(c.Bytes(), pw) })
 			}
 		} else {
-			site, o.Msg = Catch(func() { ks, err = keystore.NewKeyStoreFromPEMBytes(c.Bytes(), Password) })
+			site, o.Msg = Catch(func() { ks, err = keystore.NewKeyStoreFromPEMBytes(c.Bytes(), pw) })
 		}
 
 		var obsCoq string
@@ -211,6 +223,10 @@ func runKS(w *vf.Writer, nrand int) {
 		}
 
 		tags := append(a.Tags(), "mut="+c.Mut, "res="+strings.SplitN(o.Res, ":", 2)[0])
+		if pw != Password {
+			tags = append(tags, "wrong-password")
+		}
+
 		if i < nsys {
 			tags = append(tags, "systematic")
 		}
@@ -221,7 +237,7 @@ func runKS(w *vf.Writer, nrand int) {
 
 		// with cyclic issuers the validation oracles cannot be asked; no chain is valid then
 		w.Put(vf.Obs{
-			I: i, Stream: "keystore", In: ksCase{Content: c, Oracle: a}, Out: o,
+			I: i, Stream: "keystore", In: ksCase{Content: c, Oracle: a, Password: pw}, Out: o,
 			Coq:        "(MK " + vf.CoqApp("kc", a.CoqBlocks(), a.CoqChainOK(), obsCoq) + ")",
 			Nontrivial: len(a.Blocks) > 1 || o.Res != "ok",
 			Tags:       tags,
